@@ -13,10 +13,11 @@
                 - no finding class below applies.
    finding classes (outside the guard):
      1 get-then-forward : a name read with kwargs.get (or popped only after the call) is still in the
-                          dict that is forwarded, and the callee does not accept it
+                          dict that is forwarded, and the callee does not accept it (it is not one of
+                          the callee's resolved parameters, or it is hard-coded at the call)
      2 inherited-init   : the class instantiated inherits __init__ (resolver starts the MRO walk at
                           position 0 and analyses the inherited __init__ twice)
-     3 popget-hardcoded : a pop/get key is also hard-coded at the forwarding call
+     3 pop-hardcoded    : a key popped BEFORE the forwarding call is also hard-coded at that call
      4 method-override  : self.m resolved on the defining class instead of the instance's class
      5 ast-crash        : group_parameters raised (tuple origin) and the assumptions resolver answered
      9 other programs outside the proved fragment (no finding expected) *)
@@ -136,10 +137,11 @@ Fixpoint klass (fuel : nat) (P : prog) (fr : frame) : N :=
                         match resolve_frame f' P fr' with
                         | Err _ => 9%N
                         | Ok R' =>
-                            if existsb (fun n => mem_str n given) pgs then 3%N
+                            if existsb (fun n => mem_str n given && negb (mem_str n pre)) pgs then 1%N
                             else if negb (forallb (fun n => mem_str n pre
                                                       || mem_str n (names (remove_given npos given R'))) pgs)
                             then 1%N
+                            else if existsb (fun n => mem_str n given) pgs then 3%N
                             else if negb (N.eqb k' 0) then k'
                             else if (npos <=? length (f_params (fr_fn fr'))) && nodup_strs given
                                     && forallb (fun g => mem_str g (names (skipn npos R'))) given
